@@ -7,6 +7,7 @@ import (
 	"bytes"
 	"encoding/hex"
 	"fmt"
+	"math"
 	"strconv"
 	"strings"
 	"time"
@@ -255,6 +256,12 @@ func placeholderState(l *sqlLexer) stateFn {
 		l.pos += width
 
 		if '0' <= r && r <= '9' {
+			// a number too large for an int stays too large instead of wrapping
+			// around to the number of an argument that exists
+			if num > (math.MaxInt-9)/10 {
+				num = math.MaxInt
+				continue
+			}
 			num *= 10
 			num += int(r - '0')
 		} else {
